@@ -9,7 +9,7 @@ use proptest::collection::vec;
 use proptest::prelude::*;
 use serde_json::Value;
 
-fn oracles() -> Oracles {
+pub fn oracles() -> Oracles {
     Oracles { grow_check: true, shadow_nonzero: true, dump_every: 4, final_reopen: true, ..Oracles::default() }
 }
 
@@ -31,7 +31,7 @@ fn op_strategy(max: u32) -> BoxedStrategy<Op> {
     .boxed()
 }
 
-fn strategy(tier: Tier) -> BoxedStrategy<Case> {
+pub fn strategy(tier: Tier) -> BoxedStrategy<Case> {
     let max = 9000;
     let n = if tier == Tier::Thorough { 120 } else { 45 };
     // a quarter of the histories start on a foreign-layout file: the unused rest of a stream's
@@ -46,7 +46,7 @@ fn nontrivial(s: &Stats, _c: &Case) -> bool {
     s.has("grow_over_stale")
 }
 
-fn report(c: &Case) -> CaseReport {
+pub fn report(c: &Case) -> CaseReport {
     history_report(c, oracles(), nontrivial)
 }
 
